@@ -223,6 +223,13 @@ func (m *Machine) Exec(op Op) (Event, error) {
 	case "cut":
 		// buffer B := the first K unread bytes of buffer From (a partial TCP segment)
 		src := m.buf(op.From).Bytes()
+		if op.K < 0 { // all but the last |K| bytes
+			op.K = len(src) + op.K
+			if op.K < 0 {
+				op.K = 0
+			}
+			ev.K = op.K
+		}
 		if op.K > len(src) {
 			return ev, fmt.Errorf("cut: %d > %d", op.K, len(src))
 		}
